@@ -524,6 +524,145 @@ fn scenario(info: &RunInfo, ch: &mut Chooser, ctx: &mut Ctx) {
     dispatch(cfg, C04Job { ch, ctx, lim, cfg });
 }
 
+// EQUIVOCATING PROVER
+// ================================================================================================
+// A Byzantine prover node announces - and absorbs into its own coin - another digest X than the
+// root R of the tree it opens the queries against (main or auxiliary segment). Whatever the
+// transport then makes of the list of trace roots (X only, R only, both in either order, at
+// either place), the verifier must refuse: either the challenges were not derived from the
+// commitment that is checked, or the checked commitment is not the one that was absorbed.
+
+struct EqJob<'a> {
+    ch: &'a mut Chooser,
+    ctx: &'a mut Ctx,
+    lim: GenLimits,
+    cfg: Cfg,
+}
+
+impl<'a> Job for EqJob<'a> {
+    type Out = ();
+    fn run<B: SimField, H: ElementHasher<BaseField = B> + Send + Sync + 'static>(self) {
+        equivocate::<B, H>(self.ch, self.ctx, &self.lim, self.cfg)
+    }
+}
+
+fn equivocate<B: SimField, H: ElementHasher<BaseField = B> + Send + Sync + 'static>(ch: &mut Chooser, ctx: &mut Ctx, lim: &GenLimits, cfg: Cfg) {
+    use crypto::DefaultRandomCoin;
+    let case = gen_case::<B>(ch, lim);
+    let n = case.shape.len();
+    // a (nearly) constant trace gives a proof whose content does not depend on any challenge:
+    // with the real root restored it is a correct proof again (see DESIGN 6.3)
+    let lively = case.shape.rules.iter().any(|r| {
+        let c = r.col();
+        let mut vals: Vec<u128> = case.rows.iter().map(|row| to_u128(row[c])).collect();
+        vals.sort_unstable();
+        vals.dedup();
+        vals.len() >= n / 2
+    });
+    if !lively {
+        ctx.skipped = Some("degenerate_trace");
+        return;
+    }
+    let (out, _) = prove::<B, H, DefaultRandomCoin<H>>(&case, &case.rows, None);
+    let ProveOutcome::Ok(honest) = out else {
+        ctx.skipped = Some("baseline_failed");
+        return;
+    };
+    if !verify_with::<B, H, DefaultRandomCoin<H>>(*honest, case.inputs.clone(), &min_sec0()).accepted() {
+        ctx.skipped = Some("baseline_failed");
+        return;
+    }
+    let lie = if case.shape.aux.is_some() && ch.chance("lie.aux?", 2, 3) { Lie::AuxCommitment } else { Lie::MainCommitment };
+    ctx.event_with("case", simcore::rng::fnv1a(format!("{:?}{:?}{:?}{:?}", cfg, case.shape, case.options, lie).as_bytes()), || {
+        format!("{:?} {:?}; shape: {}; lie: {:?}", cfg, case.options, case.shape.describe(), lie)
+    });
+    ctx.fault(match lie {
+        Lie::MainCommitment => "prover_announces_another_main_commitment",
+        Lie::AuxCommitment => "prover_announces_another_aux_commitment",
+    });
+    ctx.nontrivial = true;
+    let proof = match prove_lying::<B, H, DefaultRandomCoin<H>>(&case, lie) {
+        ProveOutcome::Ok(p) => *p,
+        other => {
+            ctx.event_with("lying-prover", 0, || format!("{:?}", other));
+            ctx.skipped = Some("lying_prover_did_not_emit_a_proof");
+            return;
+        },
+    };
+    let (real_main, real_aux) = REAL_ROOTS.with(|r| r.borrow().clone());
+    let real_bytes = if lie == Lie::MainCommitment { real_main } else { real_aux };
+    let Ok(real) = <H::Digest as Deserializable>::read_from_bytes(&real_bytes) else {
+        panic!("harness: real root not recorded");
+    };
+    let segs = 1 + case.shape.aux.is_some() as usize;
+    let o = &case.options;
+    let layers = fri_layers(n * o.blowup_factor(), o.blowup_factor(), case.folding(), case.rmax());
+    let Ok((troots, croot, froots)) = proof.commitments.clone().parse::<H>(segs, layers) else {
+        panic!("harness: commitments of the lying prover's proof do not parse");
+    };
+    let li = if lie == Lie::MainCommitment { 0 } else { 1 };
+    let announced = troots[li];
+    if announced == real {
+        panic!("harness: the lie equals the truth");
+    }
+    let mut fixed = troots.clone();
+    fixed[li] = real;
+    // candidate lists of trace roots
+    let mut variants: Vec<(String, Vec<H::Digest>)> = vec![("announced-only".into(), troots.clone()), ("real-only".into(), fixed.clone())];
+    for k in 0..=troots.len() {
+        let mut a = fixed.clone();
+        a.insert(k, announced);
+        variants.push((format!("real-in-place-announced-inserted-at-{k}"), a));
+        let mut b = troots.clone();
+        b.insert(k, real);
+        variants.push((format!("announced-in-place-real-inserted-at-{k}"), b));
+    }
+    let what = if lie == Lie::MainCommitment { "main" } else { "aux" };
+    for (name, roots) in variants {
+        let mut p2 = proof.clone();
+        p2.commitments = Commitments::new::<H>(roots, croot, froots.clone());
+        let direct = verify_with::<B, H, DefaultRandomCoin<H>>(p2.clone(), case.inputs.clone(), &min_sec0());
+        let bytes = p2.to_bytes();
+        let via_bytes = match simcore::guard(|| Proof::from_bytes(&bytes)) {
+            Ok(Ok(p3)) => verify_with::<B, H, DefaultRandomCoin<H>>(p3, case.inputs.clone(), &min_sec0()),
+            Ok(Err(_)) => VerifyOutcome::Reject("parse".into()),
+            Err(pi) => VerifyOutcome::Panic(pi),
+        };
+        ctx.event_with("variant", simcore::rng::fnv1a(format!("{name}{}{}", direct.short(), via_bytes.short()).as_bytes()), || format!("{what} commitment, {name}: {} / after bytes {}", direct.short(), via_bytes.short()));
+        for v in [&direct, &via_bytes] {
+            if let VerifyOutcome::Panic(pi) = v {
+                ctx.violation(format!("C04/equivocation/verifier-panic {}", pi.signature()), format!("{what} commitment, {name}: {}:{} {}; {}", pi.file, pi.line, pi.msg, case.shape.describe()));
+                return;
+            }
+        }
+        if direct.accepted() || via_bytes.accepted() {
+            let shape = name.split("-at-").next().unwrap_or(&name).to_string();
+            ctx.violation(
+                format!("C04/equivocating-prover-accepted {what} {shape}"),
+                format!(
+                    "the prover announced (and derived its challenges from) another {what}-segment commitment than the root its openings verify against; with the trace roots arranged as '{name}' the verifier accepted ({} / {}): the challenges do not depend on the commitment that is checked; {:?} {}",
+                    direct.short(),
+                    via_bytes.short(),
+                    case.options,
+                    case.shape.describe()
+                ),
+            );
+            return;
+        }
+    }
+}
+
+fn equivocation(info: &RunInfo, ch: &mut Chooser, ctx: &mut Ctx) {
+    let thorough = info.tier == Tier::Thorough;
+    let cfg = gen_cfg(ch, true);
+    let lim = if is_rescue(cfg) {
+        GenLimits { max_log_len: 5, max_width: 8, max_grinding: 0, allow_aux: true }
+    } else {
+        GenLimits { max_log_len: if thorough { 8 } else { 6 }, max_width: 24, max_grinding: 2, allow_aux: true }
+    };
+    dispatch(cfg, EqJob { ch, ctx, lim, cfg });
+}
+
 // CONTEXT ABSORPTION
 // ================================================================================================
 
@@ -710,6 +849,7 @@ pub fn spec() -> CheckSpec {
     let arms: Vec<Box<dyn Arm>> = vec![
         Box::new(FnArm { name: "transcript", quick: 3000, thorough: 60_000, f: scenario }),
         Box::new(FnArm { name: "context-absorption", quick: 40_000, thorough: 1_000_000, f: context_absorption }),
+        Box::new(FnArm { name: "equivocating-prover", quick: 1_500, thorough: 40_000, f: equivocation }),
     ];
     CheckSpec {
         id: "C04",
